@@ -46,11 +46,16 @@ pub fn emit_alph<W: Write>(out: &mut W, prop: &str, id: &str, payload: &[u8], w:
 
 pub fn replay<W: Write>(prop: &str, line: &str, out: &mut W) {
     let get = |k: &str| line.split(' ').find_map(|t| t.strip_prefix(&format!("{k}=")).map(|s| s.to_string()));
-    let data = unhex(&get("data").unwrap());
+    let data = get("data").map(|d| unhex(&d)).unwrap_or_default();
     let id = get("id").unwrap_or("replay".into());
     match get("kind").as_deref() {
         Some("vp8l") => emit_vp8l(out, prop, &id, &data),
         Some("alph") => emit_alph(out, prop, &id, &data, get("w").unwrap().parse().unwrap(), get("h").unwrap().parse().unwrap()),
+        Some("file") => {
+            let s = crate::sparse::Sparse::parse_line(&get("len").unwrap(), &get("ext").unwrap());
+            let f = s.dense().unwrap();
+            emit_file(out, prop, &id, &f, f.windows(4).any(|w| w == b"ANIM"));
+        }
         _ => panic!("bad replay line"),
     }
 }
@@ -211,10 +216,76 @@ fn synth_cases<W: Write>(prop: &str, opts: &Opts, out: &mut W, rng: &mut Rng) {
     }
 }
 
+/// C08, container side: whole files from libwebp's encoders, animation encoder and muxer must be accepted
+pub fn emit_file<W: Write>(out: &mut W, prop: &str, id: &str, file: &[u8], animated: bool) {
+    let san = run_webp_bytes(file, false);
+    let rv = if animated { refdec::decode_animation_ok(file) } else { refdec::decode_file_ok(file) };
+    let s = crate::sparse::Sparse::from_bytes(file);
+    writeln!(out, "{prop} id={id} kind=file {} impl={} ref={}", s.line(), san.text(), if rv { "ok" } else { "bitstream" }).unwrap();
+}
+
+fn file_cases<W: Write>(prop: &str, opts: &Opts, out: &mut W, rng: &mut Rng) {
+    let n: u64 = if opts.tier_thorough { 3000 } else { 240 };
+    for i in 0..n {
+        if !opts.mine(i) {
+            continue;
+        }
+        let mut r = rng.fork(i ^ 0xF11E);
+        let (w, h) = pick_dims(&mut r, false);
+        let (w, h) = (w.min(96), h.min(96));
+        let kind = *r.pick(&KINDS);
+        let alpha = r.chance(1, 2);
+        let img = image(&mut r, kind, w, h, alpha);
+        match i % 6 {
+            0 => {
+                if let Some(f) = refdec::encode_lossless(&img, w, h, r.below(7) as i32, *r.pick(&[0.0f32, 50.0, 100.0]), *r.pick(&[100, 60, 0]), r.chance(1, 2)) {
+                    emit_file(out, prop, &format!("file-lossless-{i}"), &f, false);
+                    if let Some(m) = refdec::add_metadata(&f) {
+                        emit_file(out, prop, &format!("file-lossless-meta-{i}"), &m, false);
+                    }
+                }
+            }
+            1 | 2 => {
+                if let Some(f) = refdec::encode_lossy(&img, w, h, *r.pick(&[10.0f32, 60.0, 95.0]), r.below(2) as i32, r.below(3) as i32, *r.pick(&[100, 50, 0])) {
+                    emit_file(out, prop, &format!("file-lossy-{i}"), &f, false);
+                    if i % 4 == 1 {
+                        if let Some(m) = refdec::add_metadata(&f) {
+                            emit_file(out, prop, &format!("file-lossy-meta-{i}"), &m, false);
+                        }
+                    }
+                }
+            }
+            _ => {
+                let nf = 2 + r.below(4) as usize;
+                let mut frames = vec![img.clone()];
+                for _ in 1..nf {
+                    let mut f = frames.last().unwrap().clone();
+                    let (rx, ry) = (r.below(w as u64) as u32, r.below(h as u64) as u32);
+                    let (rw, rh) = (1 + r.below((w - rx) as u64) as u32, 1 + r.below((h - ry) as u64) as u32);
+                    for y in ry..ry + rh {
+                        for x in rx..rx + rw {
+                            let o = ((y * w + x) * 4) as usize;
+                            let px = r.bytes(4);
+                            f[o..o + 4].copy_from_slice(&[px[0], px[1], px[2], if alpha { px[3] } else { 255 }]);
+                        }
+                    }
+                    frames.push(f);
+                }
+                if let Some(f) = refdec::encode_animation(&frames, w, h, r.chance(1, 2), r.chance(1, 2), r.chance(1, 2), r.chance(1, 3)) {
+                    emit_file(out, prop, &format!("file-anim-{i}"), &f, true);
+                }
+            }
+        }
+    }
+}
+
 pub fn run<W: Write>(prop: &str, opts: &Opts, out: &mut W) {
     let mut rng = Rng::new(opts.seed ^ 0xC07);
     let thorough = opts.tier_thorough;
     synth_cases(prop, opts, out, &mut rng.fork(99));
+    if prop == "C08" {
+        file_cases(prop, opts, out, &mut rng.fork(77));
+    }
     let n: u64 = if thorough { 6000 } else { 500 };
     for i in 0..n {
         if !opts.mine(i) {
